@@ -800,10 +800,19 @@ fn exec_twin(out: &mut Out, line: &str, w: &[&str]) -> (String, bool) {
     req.header.ec = reqec;
     // ---- reuse: the same handler instances first serve `decoys` other requests (an undecodable one,
     // a large valid one, one in a rejected format), then the real one; a never-used instance gives the baseline
+    // a query of the same length as the route path but different content (stale per-connection state shows here)
+    let sibling: String = {
+        let mut cs: Vec<char> = tpath.chars().collect();
+        if let Some(l) = cs.last_mut() {
+            *l = if *l == 'y' { 'w' } else { 'y' };
+        }
+        let t: String = cs.into_iter().collect();
+        if t.len() == tpath.len() { t } else { format!("{}~", &tpath[..tpath.len().saturating_sub(1)]) }
+    };
     let decoy_reqs: Vec<Message> = [
         (b"{\"unterminated".to_vec(), 2u16, "/decoy/a"),
         (serde_json::to_vec(&json!({"a": 5, "s": "d".repeat(9000)})).unwrap(), 2u16, tpath.as_str()),
-        (b"xyz".to_vec(), 77u16, tpath.as_str()),
+        (b"xyz".to_vec(), 77u16, sibling.as_str()),
     ]
     .iter()
     .take(decoys)
